@@ -14,7 +14,7 @@ import (
 // VerifDeclInfo is what translating one top-level Go declaration recorded.
 type VerifDeclInfo struct {
 	File    string   // base name of the file
-	Index   int      // position among the file's declarations
+	Index   int      // position among the file's declarations (declUnits)
 	Names   []string // names the declaration defines (depTracker.names)
 	Deps    []string // names it mentions (depTracker.deps)
 	Emitted []string // the Coq declarations it produced (imports left out)
@@ -32,7 +32,7 @@ func VerifDecls(pkg *packages.Package, tr TranslationConfig) (infos []VerifDeclI
 	}
 	files := sortedFiles(pkg.CompiledGoFiles, pkg.Syntax)
 	for _, f := range files {
-		for di, d := range f.Ast.Decls {
+		for di, d := range declUnits(f.Ast) {
 			ctx.dep = &depTracker{}
 			info := VerifDeclInfo{File: f.Name(), Index: di}
 			newDecls, derr := ctx.declsOrError(d)
